@@ -77,6 +77,11 @@ LEAVES = [
     ("ReplyNet", "l_append_if_msg", LIS, "AsyncListener._respond_query", ("if", "msg", 0), [P("msg", "msg_given", "bool")], "bool", {}),
     ("ReplyNet", "src_cache_unique_store", "_cache.py", "DNSCache.async_get_unique", ("assign", "store", 0), [], "src", {}),
     ("ReplyNet", "src_cache_unique_ret", "_cache.py", "DNSCache.async_get_unique", ("last_ret",), [], "src", {}),
+    # ---- query_handler.py::async_response (C03's repair of scoped known answers, optional: absent from the unrepaired tree): known AAAA
+    #      answers received on an IPv6 socket carry the interface's scope id; the repaired responder compares its own records with them
+    #      after dropping it.  The harness numbers known answers accordingly (reply_common.parse_query) and the driver checks the flag.
+    ("ReplyNet", "resp_known_unscoped", QH, "QueryHandler.async_response", ("if_assigning", "own_known_answers", 0),
+     [P("msg.scope_id is None", "scope_none", "bool")], "bool", {"absent": False}),
     # ---- the record constructors the responder answers with: type and class arguments
     ("ReplyNet", "rec_ptr_type", INFO, "ServiceInfo._dns_pointer", ("arg", "DNSPointer", 1, 0), [], "num", {"nat": True}),
     ("ReplyNet", "rec_ptr_class", INFO, "ServiceInfo._dns_pointer", ("arg", "DNSPointer", 2, 0), [], "num", {"nat": True}),
